@@ -81,10 +81,82 @@ type pipeGen struct{ in input }
 func (g *pipeGen) Name() string                        { return "c03" }
 func (g *pipeGen) New(c gengo.Context) gengo.Generator { return g }
 func (g *pipeGen) GenerateType(c gengo.Context, named *types.Named) error {
+	if len(g.in.Types) > 0 {
+		return g.generateFor(c, named.Obj().Name())
+	}
 	for _, o := range g.in.Ops {
 		c.Render(snippet.Block("var _ "))
 		c.Render(snippetOf(o))
 		c.Render(snippet.Block("\n"))
+	}
+	return nil
+}
+
+func (g *pipeGen) GenerateAliasType(c gengo.Context, alias *types.Alias) error {
+	if len(g.in.Types) > 0 {
+		return g.generateFor(c, alias.Obj().Name())
+	}
+	return nil
+}
+
+// typeIn: the package of a pipeline case declares one tagged type per entry (T00, T01 ...; gengo generates them in this
+// order).  For type k the generator renders the next N operations of the history, one `var V<i> <snippet>` line per
+// operation (i = index of the operation in the history, so that the lines can be recognised in the written file), and
+// then ends as End says:
+//
+//	""       return nil
+//	"skip"   return gengo.ErrSkip   (it met something it does not support half-way: the type is skipped)
+//	"ignore" return gengo.ErrIgnore
+//	"defer"  the lines are rendered by a callback registered with Context.Defer (after all types), return nil
+type typeIn struct {
+	N     int    `json:"n"`
+	End   string `json:"end,omitempty"`
+	Alias bool   `json:"alias,omitempty"` // declared as `type Tkk = struct{}`: goes through GenerateAliasType
+}
+
+func typeName(k int) string { return fmt.Sprintf("T%02d", k) }
+
+// the operations of the history that belong to type k
+func typeSpan(in input, k int) (lo, hi int) {
+	for i := 0; i < k && i < len(in.Types); i++ {
+		lo += max(in.Types[i].N, 0)
+	}
+	hi = lo
+	if k < len(in.Types) {
+		hi = lo + max(in.Types[k].N, 0)
+	}
+	return min(lo, len(in.Ops)), min(hi, len(in.Ops))
+}
+
+func (g *pipeGen) generateFor(c gengo.Context, name string) error {
+	k := -1
+	for i := range g.in.Types {
+		if typeName(i) == name {
+			k = i
+		}
+	}
+	if k < 0 {
+		return nil
+	}
+	lo, hi := typeSpan(g.in, k)
+	render := func(c gengo.Context) error {
+		for i := lo; i < hi; i++ {
+			c.Render(snippet.Block(fmt.Sprintf("var V%d ", i)))
+			c.Render(snippetOf(g.in.Ops[i]))
+			c.Render(snippet.Block("\n"))
+		}
+		return nil
+	}
+	if g.in.Types[k].End == "defer" {
+		c.Defer(render)
+		return nil
+	}
+	_ = render(c)
+	switch g.in.Types[k].End {
+	case "skip":
+		return gengo.ErrSkip
+	case "ignore":
+		return gengo.ErrIgnore
 	}
 	return nil
 }
@@ -129,6 +201,14 @@ func validImportPath(p string) bool {
 func pipelineOK(in input) bool {
 	if !strings.HasPrefix(in.Self, pipeModule+"/") {
 		return false
+	}
+	if len(in.Types) > 99 {
+		return false
+	}
+	for _, t := range in.Types {
+		if t.N < 0 || !(t.End == "" || t.End == "skip" || t.End == "ignore" || t.End == "defer") {
+			return false
+		}
 	}
 	if ok, _ := structured(in); !ok || !allASCII(in) {
 		return false
@@ -175,17 +255,33 @@ func stripWS(s string) string {
 	}, s)
 }
 
-func runPipeline(in input, scratch string) (obs observed, failure string, notes []string) {
+// runPipeline returns the observation and the history it is an observation OF (eff): without Types the whole history;
+// with Types the operations whose `var V<i>` line is in the body of the written file, in the order of the file.  The
+// property speaks about the written file ("the import block lists exactly the packages referenced from the rendered
+// body"); whether the text a generator rendered for a type it then skipped stays in the body is not C03's business.
+func runPipeline(in input, scratch string) (obs observed, eff input, failure string, notes []string) {
+	eff = in
 	sub := strings.TrimPrefix(in.Self, pipeModule+"/")
 	dir := filepath.Join(scratch, "m")
 	pkgDir := filepath.Join(dir, filepath.FromSlash(sub))
 	if err := os.MkdirAll(pkgDir, 0o755); err != nil {
-		return obs, "", []string{"scratch: " + err.Error()}
+		return obs, eff, "", []string{"scratch: " + err.Error()}
 	}
 	pkgName := "p"
 	// the Go version the harness itself was built with: that toolchain is present
 	_ = os.WriteFile(filepath.Join(dir, "go.mod"), []byte("module "+pipeModule+"\n\ngo "+strings.TrimPrefix(runtime.Version(), "go")+"\n"), 0o644)
-	_ = os.WriteFile(filepath.Join(pkgDir, "p.go"), []byte("package "+pkgName+"\n\n// +gengo:c03\ntype Own struct{}\n"), 0o644)
+	decls := "// +gengo:c03\ntype Own struct{}\n"
+	if len(in.Types) > 0 {
+		decls = ""
+		for k, t := range in.Types {
+			if t.Alias {
+				decls += "// +gengo:c03\ntype " + typeName(k) + " = struct{}\n\n"
+			} else {
+				decls += "// +gengo:c03\ntype " + typeName(k) + " struct{}\n\n"
+			}
+		}
+	}
+	_ = os.WriteFile(filepath.Join(pkgDir, "p.go"), []byte("package "+pkgName+"\n\n"+decls), 0o644)
 	hist, _ := json.Marshal(in)
 	histFile := filepath.Join(scratch, "history.json")
 	_ = os.WriteFile(histFile, hist, 0o644)
@@ -196,7 +292,7 @@ func runPipeline(in input, scratch string) (obs observed, failure string, notes 
 	cmd.Dir = dir
 	out, err := cmd.CombinedOutput()
 	if ctx.Err() != nil {
-		return obs, "gengo run did not finish in 120 s", nil
+		return obs, eff, "gengo run did not finish in 120 s", nil
 	}
 	if err != nil {
 		msg := string(out)
@@ -206,20 +302,24 @@ func runPipeline(in input, scratch string) (obs observed, failure string, notes 
 		if ee, ok := err.(*exec.ExitError); ok && (ee.ExitCode() == 3 || ee.ExitCode() == 2) {
 			pipeSkipped.Add(1)
 			pipeSkipWhy.Store(msg)
-			return obs, "", []string{"pipeline case skipped, the synthetic module did not load: " + msg}
+			return obs, eff, "", []string{"pipeline case skipped, the synthetic module did not load: " + msg}
 		}
-		return obs, "gengo Execute failed on a file whose body only names types: " + msg, nil
+		return obs, eff, "gengo Execute failed on a file whose body only names types: " + msg, nil
 	}
 	pipeRan.Add(1)
 	genFile := filepath.Join(pkgDir, "zz_generated.c03.go")
 	src, err := os.ReadFile(genFile)
 	if err != nil {
-		return obs, "no generated file: " + err.Error(), nil
+		if len(in.Types) > 0 && !rendersNormally(in) {
+			// nothing was rendered for a type that was generated normally: gengo may write no file at all
+			return obs, eff, "", []string{"no file written; every rendered line belonged to a skipped type"}
+		}
+		return obs, eff, "no generated file: " + err.Error(), nil
 	}
 	fset := token.NewFileSet()
 	f, err := parser.ParseFile(fset, genFile, src, parser.SkipObjectResolution)
 	if err != nil {
-		return obs, "generated file does not parse: " + err.Error(), nil
+		return obs, eff, "generated file does not parse: " + err.Error(), nil
 	}
 	table := map[string]string{}
 	byName := map[string]string{}
@@ -240,8 +340,9 @@ func runPipeline(in input, scratch string) (obs observed, failure string, notes 
 		snap = append(snap, []string{p, n})
 	}
 	sort.Slice(snap, func(i, j int) bool { return snap[i][0] < snap[j][0] })
-	// the body: one `var _ T` per operation, in order
+	// the body: one `var _ T` per operation, in order (with Types: `var V<i> T`, i = index of the operation)
 	used := map[string]bool{}
+	var bodyIdx []int
 	for _, d := range f.Decls {
 		gd, ok := d.(*ast.GenDecl)
 		if !ok || gd.Tok != token.VAR {
@@ -253,6 +354,14 @@ func runPipeline(in input, scratch string) (obs observed, failure string, notes 
 				continue
 			}
 			text := string(src[fset.Position(vs.Type.Pos()).Offset:fset.Position(vs.Type.End()).Offset])
+			if len(in.Types) > 0 {
+				i, err := strconv.Atoi(strings.TrimPrefix(vs.Names[0].Name, "V"))
+				if err != nil || i < 0 || i >= len(in.Ops) || len(vs.Names) != 1 {
+					failure = "the body declares " + vs.Names[0].Name + ", which no operation of the generator rendered"
+					continue
+				}
+				bodyIdx = append(bodyIdx, i)
+			}
 			obs.Ops = append(obs.Ops, obsOp{Text: stripWS(text), Snap: snap})
 			ast.Inspect(vs.Type, func(n ast.Node) bool {
 				if se, ok := n.(*ast.SelectorExpr); ok {
@@ -275,6 +384,26 @@ func runPipeline(in input, scratch string) (obs observed, failure string, notes 
 			failure = "import " + n + " " + strconv.Quote(p) + " is not used in the body"
 		}
 	}
+	if len(in.Types) > 0 {
+		eff.Ops = nil
+		inBody := map[int]bool{}
+		for _, i := range bodyIdx {
+			if inBody[i] && failure == "" {
+				failure = fmt.Sprintf("the line of operation %d is in the body twice", i)
+			}
+			inBody[i] = true
+			eff.Ops = append(eff.Ops, in.Ops[i])
+		}
+		for k, t := range in.Types {
+			lo, hi := typeSpan(in, k)
+			for i := lo; i < hi; i++ {
+				if !inBody[i] && (t.End == "" || t.End == "defer") {
+					notes = append(notes, fmt.Sprintf("the line rendered for %s (generated normally) is not in the written file", typeName(k)))
+					break
+				}
+			}
+		}
+	}
 	owners := stdOwners()
 	for _, e := range snap {
 		p := e[0]
@@ -285,7 +414,7 @@ func runPipeline(in input, scratch string) (obs observed, failure string, notes 
 		obs.Final = append(obs.Final, io)
 	}
 	seen := map[string]bool{}
-	for _, o := range in.Ops {
+	for _, o := range eff.Ops {
 		for _, p := range opPaths(o) {
 			if !seen[p] {
 				seen[p] = true
@@ -293,5 +422,16 @@ func runPipeline(in input, scratch string) (obs observed, failure string, notes 
 			}
 		}
 	}
-	return obs, failure, notes
+	return obs, eff, failure, notes
+}
+
+// some type that is generated normally (or through Defer) renders at least one line
+func rendersNormally(in input) bool {
+	for k, t := range in.Types {
+		lo, hi := typeSpan(in, k)
+		if hi > lo && (t.End == "" || t.End == "defer") {
+			return true
+		}
+	}
+	return false
 }
